@@ -152,8 +152,8 @@ func c09Streams() (names []string, streams [][]byte, truths []*gen.Dump) {
 		truths = append(truths, d)
 	}
 	add("plain", gen.GenDump(fixedChooser{"goroutines": 1, "g0.creator": 1, "g0.stack-shape": 1}, env), "panic: x\n\n", "exit status 2\n")
-	add("crlf", gen.GenDump(fixedChooser{"crlf": 1, "goroutines": 1, "g1.stack-shape": 6}, env), "log\r\n", "")
-	add("indented", gen.GenDump(fixedChooser{"indent": 2, "goroutines": 1, "g0.f0.argshape": 9}, env), "", "tail\n")
+	add("crlf", gen.GenDump(fixedChooser{"crlf": 1, "goroutines": 1, "g1.stack-shape": 6}, env), "log\r\n", "trailer after a CRLF dump\r\nmore\r\n")
+	add("indented", gen.GenDump(fixedChooser{"indent": 2, "goroutines": 1, "g0.f0.argshape": 9}, env), "", "tail\nsecond trailer line\nthird\n")
 	add("unterminated", gen.GenDump(fixedChooser{"no-final-newline": 1, "g0.stack-shape": 1}, env), "x\n", "")
 	rc, _ := gen.GenRace(fixedChooser{})
 	names = append(names, "race+trailer")
